@@ -749,8 +749,13 @@ func c12SysGen(t *rapid.T) c12SysCase {
 		return rapid.IntRange(0, len(c12Names)-1).Draw(t, label)
 	}
 	o := c12Op{GGUF: rapid.IntRange(0, 2).Draw(t, "op_gguf"), Sys: rapid.IntRange(0, 2).Draw(t, "op_sys"), Stream: rapid.Bool().Draw(t, "op_stream")}
-	o.Kind = rapid.SampledFrom([]string{"blob", "create", "create", "createfrom", "copy", "copy", "delete", "delete", "repull", "repull"}).Draw(t, "op_kind")
+	o.Kind = rapid.SampledFrom([]string{"blob", "create", "create", "createfrom", "copy", "copy", "delete", "delete", "repull", "repull", "freshpull", "freshpull", "freshpull"}).Draw(t, "op_kind")
 	switch o.Kind {
+	case "freshpull":
+		// first pull of a model: the child downloads every blob from its in-process registry, so the kill can fall between
+		// any two file-system effects of the download itself (part files, verification, rename into place)
+		o.Kind = "pull"
+		o.Name = rapid.SampledFrom([]int{0, 1, 2, 4, 5, 6}).Draw(t, "op_pull_name")
 	case "repull":
 		// pull again a model that was pulled before (prior state): only the manifest request needs the registry, every
 		// blob is a cache hit, so the child is fast; the crash window is the rewrite of the manifest
@@ -770,7 +775,7 @@ func c12SysGen(t *rapid.T) c12SysCase {
 		o.Name = existing("op_name")
 	}
 	c.Op = o
-	c.NoPrune = rapid.IntRange(0, 3).Draw(t, "noprune") == 0
+	c.NoPrune = rapid.IntRange(0, 2).Draw(t, "noprune") == 0 // start-up pruning hides most crash debris: a third of the cases run without it
 	c.Points = rapid.SliceOfN(rapid.IntRange(0, 999), 4, 10).Draw(t, "points")
 	return c
 }
@@ -949,10 +954,24 @@ func c12SysRun(t *testing.T, c c12SysCase) (classes []string, nontrivial bool, e
 	if len(cands) == 0 {
 		return c12Classes(cls), false, nil
 	}
+	// opens, closes and writes are nine tenths of the candidates; the calls with a lasting effect of their own (rename,
+	// unlink, mkdir, truncate, chmod) are where two effects can be torn apart: every other point is drawn among those only
+	var effects []int
+	for i, p := range cands {
+		switch p.sc {
+		case "openat", "write", "pwrite64", "close":
+		default:
+			effects = append(effects, i)
+		}
+	}
 	images := map[string]bool{}
 	seen := map[int]bool{}
-	for _, pm := range c.Points {
+	for k, pm := range c.Points {
 		idx := pm * len(cands) / 1000
+		if k%2 == 1 && len(effects) > 0 {
+			idx = effects[pm*len(effects)/1000]
+			cls["point_among_effect_calls"] = true
+		}
 		if seen[idx] {
 			continue
 		}
@@ -1048,6 +1067,26 @@ func c12SysRun(t *testing.T, c c12SysCase) (classes []string, nontrivial bool, e
 					return
 				}
 				cls["repeat_matches_uninterrupted"] = true
+			}
+			// "as an uninterrupted run would have left it" also means that what a user does next behaves the same: after a
+			// pull, deleting the model and pulling it again succeeds (debris the comparison above does not see, such as
+			// bookkeeping files of a finished download, must not make a later download fail)
+			if c.Op.Kind == "pull" && refOK && ok {
+				dcode, dbody := w.request(context.Background(), c12Op{Kind: "delete", Name: c.Op.Name})
+				synctest.Wait()
+				if dcode != 200 {
+					verr = fail("after repeating the pull, deleting the model fails (%d %s)", dcode, bytes.TrimSpace(dbody))
+					return
+				}
+				pcode, pbody := w.request(context.Background(), c.Op)
+				synctest.Wait()
+				time.Sleep(3 * time.Minute)
+				synctest.Wait()
+				if _, perr := c04HasError(pbody); pcode != 200 || perr {
+					verr = fail("after repeating the pull, deleting the model and pulling it again fails (%d %s); after an uninterrupted pull that sequence succeeds", pcode, bytes.TrimSpace(pbody))
+					return
+				}
+				cls["pull_delete_pull_again_ok"] = true
 			}
 		})
 		if verr != nil {
